@@ -1,6 +1,7 @@
 package rules
 
 import (
+	"os"
 	"fmt"
 	"go/types"
 	"sort"
@@ -126,6 +127,16 @@ type c07state struct {
 	c     *Ctx
 	sites map[ssa.Instruction]*c07site
 	read  *ssa.Function
+	rule  string // rule the sites are reported under (default C07.panic-sites)
+	floor int
+	what  string // consequence clause of a failed site
+}
+
+func (st *c07state) ruleName() string {
+	if st.rule != "" {
+		return st.rule
+	}
+	return "C07.panic-sites"
 }
 
 func c07(c *Ctx) {
@@ -342,7 +353,29 @@ func (st *c07state) factConsequences(x *core.Explorer, t *core.Term, pol bool) {
 
 func (st *c07state) opts() core.Opts {
 	return core.Opts{Unroll: 0, LoopInvariants: true, NonNilOnNilErr: true, MaxPaths: 400000,
-		AfterCall: st.libFacts, OnFact: st.factConsequences, OnInstr: st.onInstr}
+		AfterCall: st.libFacts, OnFact: st.factConsequences, OnInstr: st.onInstr, OnInvariantFail: st.invariantFail}
+}
+
+// invariantFail: a loop counter advanced by a non-constant amount was assumed to stay >= its entry value, and a back
+// edge does not re-establish that: every site that relied on it is unproven, which is reported as a site of its own.
+func (st *c07state) invariantFail(x *core.Explorer, fn *ssa.Function, phi *ssa.Phi, nv *core.Term) {
+	s := st.sites[phi]
+	if s == nil {
+		s = &c07site{fn: fn, in: phi, proven: true, kind: "loop-invariant", key: "loop variable " + phi.Comment + " stays >= its entry value"}
+		st.sites[phi] = s
+	}
+	if os.Getenv("WSVERIF_DEBUG") != "" {
+		lo, has := x.Lower(nv)
+		fmt.Fprintf(os.Stderr, "invariantFail %s nv=%v kind=%d lower=%d/%v\n", phi.Comment, nv, nv.Kind, lo, has)
+		for _, a := range nv.Args {
+			l2, h2 := x.Lower(a)
+			fmt.Fprintf(os.Stderr, "   arg %v kind=%d type=%v lower=%d/%v\n", a, a.Kind, a.Type, l2, h2)
+		}
+	}
+	s.visited++
+	s.unproven++
+	s.proven = false
+	s.failWhy = "the loop variable " + phi.Comment + " is advanced to " + nv.String() + ", which is not known to be >= its value at loop entry (the bounds proofs inside the loop assumed it)"
 }
 
 func (st *c07state) analyse(fn *ssa.Function) {
@@ -357,14 +390,14 @@ func (st *c07state) analyse(fn *ssa.Function) {
 			site := sites[0]
 			a := o
 			a.Stop = func(x *core.Explorer, ev *core.Event) bool { return ev.Instr == ssa.Instruction(site) }
-			st.c.explore("C07.panic-sites", fn, a, func(p *core.Path) {})
+			st.c.explore(st.ruleName(), fn, a, func(p *core.Path) {})
 			b := o
 			b.Start = site
-			st.c.explore("C07.panic-sites", fn, b, func(p *core.Path) {})
+			st.c.explore(st.ruleName(), fn, b, func(p *core.Path) {})
 			return
 		}
 	}
-	st.c.explore("C07.panic-sites", fn, o, func(p *core.Path) {})
+	st.c.explore(st.ruleName(), fn, o, func(p *core.Path) {})
 }
 
 func prove(x *core.Explorer, t *core.Term) bool  { return x.Prove(t) }
@@ -532,18 +565,28 @@ func (st *c07state) report() {
 		fn := shortFn(s.fn)
 		if s.proven {
 			nProven++
-			r.Check("C07.panic-sites", fn, s.key, s.in.Pos(), true, fmt.Sprintf("in bounds on all %d visits", s.visited))
+			r.Check(st.ruleName(), fn, s.key, s.in.Pos(), true, fmt.Sprintf("in bounds on all %d visits", s.visited))
 			continue
 		}
 		if reason, ok := c07Table[fn+" / "+s.key]; ok {
 			nTable++
 			r.Table("C07.panic-sites " + fn + " / " + s.key + ": " + reason)
-			r.Check("C07.panic-sites", fn, s.key, s.in.Pos(), true, "discharged by reviewed table entry (not by analysis): "+reason)
+			r.Check(st.ruleName(), fn, s.key, s.in.Pos(), true, "discharged by reviewed table entry (not by analysis): "+reason)
 			continue
 		}
-		r.Check("C07.panic-sites", fn, s.key, s.in.Pos(), false, s.failWhy+fmt.Sprintf(" (on %d of %d visits); a peer-controlled value reaching this site can panic", s.unproven, s.visited))
+		r.Check(st.ruleName(), fn, s.key, s.in.Pos(), false, s.failWhy+fmt.Sprintf(" (on %d of %d visits); %s", s.unproven, s.visited, st.consequence()))
 	}
 	r.Notes = append(r.Notes, fmt.Sprintf("%d sites proven, %d by table", nProven, nTable))
 	_ = c
-	r.Floor("C07.panic-sites", 60)
+	if st.floor == 0 {
+		st.floor = 60
+	}
+	r.Floor(st.ruleName(), st.floor)
+}
+
+func (st *c07state) consequence() string {
+	if st.what != "" {
+		return st.what
+	}
+	return "a peer-controlled value reaching this site can panic"
 }
